@@ -27,6 +27,8 @@ type TNode struct {
 type Topo struct {
 	Nodes    []TNode `json:"nodes"`
 	AddrForm int     `json:"addr_form"` // 3: ip:port   4: ip:port@cport   7: ip:port@cport,hostname
+	Rotate   int     `json:"rotate,omitempty"`  // the lines are rendered starting at this index (wrapping around)
+	Reverse  bool    `json:"reverse,omitempty"` // ... and in reverse order: replicas may precede their masters
 }
 
 // Usable reports whether the property text allows the proxy to use the node.
@@ -53,7 +55,14 @@ func (t *Topo) addrOf(c *Cluster, n *TNode) string {
 // Render produces the text of CLUSTER NODES as seen by fake node `viewer`.
 func (t *Topo) Render(c *Cluster, viewer int) string {
 	var b strings.Builder
-	for i := range t.Nodes {
+	for k := range t.Nodes {
+		i := k
+		if len(t.Nodes) > 0 {
+			i = (k + t.Rotate%len(t.Nodes) + len(t.Nodes)) % len(t.Nodes)
+			if t.Reverse {
+				i = len(t.Nodes) - 1 - i
+			}
+		}
 		n := &t.Nodes[i]
 		addr := t.addrOf(c, n)
 		if n.Short {
@@ -117,7 +126,7 @@ func (t *Topo) Install(c *Cluster) {
 
 // Clone deep-copies the topology.
 func (t *Topo) Clone() *Topo {
-	out := &Topo{AddrForm: t.AddrForm, Nodes: make([]TNode, len(t.Nodes))}
+	out := &Topo{AddrForm: t.AddrForm, Rotate: t.Rotate, Reverse: t.Reverse, Nodes: make([]TNode, len(t.Nodes))}
 	for i, n := range t.Nodes {
 		n.Flags = append([]string(nil), n.Flags...)
 		n.Slots = append([][2]int(nil), n.Slots...)
